@@ -494,7 +494,13 @@ func (t *Transport) gsOutgoingRequestHook(p peer.ID, request graphsync.RequestDa
 	if err != nil {
 		// There was an error opening the channel, bail out
 		log.Errorf("processing OnChannelOpened for %s: %s", chid, err)
-		t.CleanupChannel(chid)
+		// The OpenChannel call that made this request holds the channel's lock until it hears that
+		// the request was opened: tell it that it will not be, and release the channel from another
+		// goroutine (cleanup takes the same lock), so that neither that call nor this hook blocks
+		if ch, cherr := t.getDTChannel(chid); cherr == nil {
+			ch.gsReqRefused(err)
+		}
+		go t.CleanupChannel(chid)
 		return
 	}
 
@@ -902,6 +908,7 @@ func (t *Transport) newDTChannel(chid datatransfer.ChannelID) *dtChannel {
 		t:         t,
 		channelID: chid,
 		opened:    make(chan graphsync.RequestID, 1),
+		refused:   make(chan error, 1),
 	}
 }
 
@@ -947,6 +954,8 @@ type dtChannel struct {
 	pendingExtensions  []graphsync.ExtensionData
 
 	opened chan graphsync.RequestID
+	// refused is signalled instead of opened when the events handler refuses the new request
+	refused chan error
 
 	optionsLk       sync.RWMutex
 	storeRegistered bool
@@ -973,6 +982,12 @@ func (c *dtChannel) open(
 ) (*gsReq, error) {
 	c.lk.Lock()
 	defer c.lk.Unlock()
+
+	// Forget a refusal that nobody was waiting for any more
+	select {
+	case <-c.refused:
+	default:
+	}
 
 	// If there is an existing graphsync request for this channelID
 	if c.requestID != nil {
@@ -1022,6 +1037,8 @@ func (c *dtChannel) open(
 	select {
 	case <-ctx.Done():
 		return nil, ctx.Err()
+	case err := <-c.refused:
+		return nil, fmt.Errorf("%s: graphsync request was not opened: %w", chid, err)
 	case requestID := <-c.opened:
 		// Mark the channel as open and save the Graphsync request key
 		c.isOpen = true
@@ -1063,6 +1080,14 @@ func (c *dtChannel) gsReqOpened(requestID graphsync.RequestID, hookActions graph
 	c.t.requestIDToChannelID.set(requestID, false, c.channelID)
 
 	c.opened <- requestID
+}
+
+// gsReqRefused is called by the outgoing request hook when the events handler refuses the request
+func (c *dtChannel) gsReqRefused(err error) {
+	select {
+	case c.refused <- err:
+	default:
+	}
 }
 
 // gsDataRequestRcvd is called when the transport receives an incoming request
